@@ -54,6 +54,9 @@ Definition reduce_route (c : vclass) (multi args : bool) (r : vreduce) : red_rou
   | _ => match r with RMax => av_max | RMin => av_min end
   end.
 
+(* does the argument-less max/min of a one-element scaled view test the sign of the scale before answering from the grid? *)
+Definition grid_guard (r : vreduce) : bool := match r with RMax => sav_max_grid_guard | RMin => sav_min_grid_guard end.
+
 (* evaluation of `view <op> operand` with numpy's own evaluation of `array <op> operand` abstract:
    a Materialised route hands np.array(view) to numpy, the other routes run the class's own code *)
 Section Delegation.
@@ -466,6 +469,7 @@ Section Scaled.
     | PlanGrid (f : option F)                 (* self._apply_scale(self.array.<r>()) *)
     | PlanMaterialised (r : vreduce) (init : option F) (a : nd) (* np.array(self).<r>(arguments) *)
     | PlanNone.
+  Variable pos : S -> bool.           (* `scale > 0` *)
   Definition reduce_plan (r : vreduce) (init : option F) (v : sview) : red_plan :=
     if is_value v then PlanMaterialised r init (materialise v) else         (* a plain array: numpy's own max/min *)
     let has_args := match init with Some _ => true | None => false end in
@@ -473,7 +477,11 @@ Section Scaled.
     | RedMaterialised r' => PlanMaterialised r' init (materialise v)
     | RedApplyGrid r' =>
         match v, init with
-        | V1 xs s o, None => PlanGrid (option_map (ap s o) (fold1 (zred r') xs))
+        | V1 xs s o, None =>
+            (* the grid route is guarded by `np.all(self.scale > 0)` (grid_guard, generated): a scale that is not positive
+               does not keep the order of the stored integers, the view is materialised instead *)
+            if pos s || negb (grid_guard r') then PlanGrid (option_map (ap s o) (fold1 (zred r') xs))
+            else PlanMaterialised r' init (materialise v)
         | _, _ => PlanNone   (* arguments dropped / one extremum of the grid against several scales: not numpy's answer *)
         end
     | RedApplyGridArgs r' =>
